@@ -46,7 +46,12 @@ RULE = ("cases = (schema, count n in {0,1,2,7} or generate_one, stream): schemas
         "or a nested named record, field retyped, primitive union branch replaced; each result re-parsed to be valid), generate again, optionally "
         "revert and generate again, the edited form first, or three calls on an unchanged object; every batch must satisfy the statement against "
         "the CURRENT schema, equal what a never-seen deep copy of the schema yields on the same recorded draws, and equal the model; + the four "
-        "fixed histories of a growing record / nested record / one-branch union")
+        "fixed histories of a growing record / nested record / one-branch union; "
+        "corr:gen-interleave = 2-3 LIVE generate_many generators (next() alternately, generate_one in between) over schemas that define the same "
+        "type names differently and refer to them by name (5 fixed groups + generated schemas with one definition edited); each yielded value is "
+        "checked against ITS schema and each consumer's values against the model on that consumer's draws; "
+        "corr:gen-depth = 5 recursive types whose recursive union branch is not the null branch (Expr{arg:[long,Expr]}, Chain, Bush through an "
+        "array, mutual A/B, Opt through a map), streams planned so that the recursive branch is taken k = 1..12, 15, 20 (thorough: ..45) times in a row")
 TRUSTED = ["random / uuid are replaced by proxies that implement randint, random, choices, getrandbits, uuid4 themselves; "
            "CPython's own derivation of those results from the Mersenne twister is not part of the claim (the theorems hold for every stream)",
            "datetime / decimal / uuid of the standard library compute the logical view a generated value is compared with after reading back",
